@@ -60,9 +60,28 @@ func (t *IPInfo) Info() string {
 // Match check if ip matched
 func (t *IPInfo) Match(ip net.IP) bool {
 	if t.isIPNet {
-		return t.ipNet.Contains(ip)
+		return t.ipNet.Contains(ip) || t.containsMapped(ip)
 	}
 	return t.ip.Equal(ip)
+}
+
+// containsMapped reports whether an IPv4 client lies, as its IPv4-mapped
+// address ::ffff:a.b.c.d, in a block written in IPv6 form. net.IPNet.Contains
+// only compares addresses of one family, so without this a block of fewer than
+// 96 bits ("::/0", "::ffff:0:0/80") holds no IPv4 client at all. An IPv6
+// client is never looked for in an IPv4 block.
+func (t *IPInfo) containsMapped(ip net.IP) bool {
+	ip4 := ip.To4()
+	if ip4 == nil || len(t.ipNet.IP) != net.IPv6len || len(t.ipNet.Mask) != net.IPv6len {
+		return false
+	}
+	ip16 := ip4.To16()
+	for i := range ip16 {
+		if t.ipNet.IP[i]&t.ipNet.Mask[i] != ip16[i]&t.ipNet.Mask[i] {
+			return false
+		}
+	}
+	return true
 }
 
 func parseAllowIps(allowIpsStr string) ([]IPInfo, error) {
